@@ -26,11 +26,14 @@ var domains = map[string]domainFn{}
 func register(name string, f domainFn) { domains[name] = f }
 
 type emitter struct {
-	w    *bufio.Writer
-	rng  *rand.Rand
-	n    int
-	tier string
-	seed int64
+	w         *bufio.Writer
+	rng       *rand.Rand
+	n         int
+	tier      string
+	seed      int64
+	sample    []sampled
+	seen      int
+	replaying bool
 }
 
 func hx(b []byte) string {
@@ -88,7 +91,35 @@ func (e *emitter) op(name string, args ...string) string {
 		keptPrev, keptCur = nil, nil
 	}
 	fmt.Fprintf(e.w, "%s %s\t%s\n", name, strings.Join(args, " "), res)
+	// a sample of the ops is executed a second time at the end of the run, in reverse order (see replaySample)
+	if !e.replaying && res != "hang" {
+		if _, slow := opLimits[name]; !slow {
+			e.seen++
+			if len(e.sample) < 400 && (e.seen%17 == 3 || e.seen < 8) {
+				e.sample = append(e.sample, sampled{name, append([]string{}, args...), res})
+			}
+		}
+	}
 	return res
+}
+
+type sampled struct {
+	name string
+	args []string
+	res  string
+}
+
+// replaySample: every op line is self-contained, so executing it again — later, after many other calls, in another order —
+// must give the same result. A result that depends on what ran before (a cache keyed too narrowly, a table built on first
+// use, a counter that is not reset) shows up as a second line for the same op with a different result, which then
+// disagrees with the model. Ops with a time limit of their own (process-level scenarios) are not repeated.
+func (e *emitter) replaySample() {
+	e.replaying = true
+	for i := len(e.sample) - 1; i >= 0; i-- {
+		sm := e.sample[i]
+		e.op(sm.name, sm.args...)
+	}
+	e.replaying = false
 }
 
 // Retention. An op may register the live objects it obtained from the implementation (byte slices, structures) with a
@@ -244,6 +275,9 @@ func main() {
 	w := bufio.NewWriterSize(out, 1<<20)
 	e := &emitter{w: w, rng: rand.New(rand.NewSource(*seed)), n: *n, tier: *tier, seed: *seed}
 	f(e)
+	if dom != "run" {
+		e.replaySample()
+	}
 	for _, st := range statsOut() {
 		fmt.Fprintf(w, "#stat %s\n", st)
 	}
